@@ -67,6 +67,10 @@ def _all_results(case, o):
 def run(case):
     o = case["o"]
     sc = case["sc"]
+    if sc.get("rdt"):
+        # a radius held in a narrow floating type is rounded to that type after scaling: not the same sphere any more
+        sc = dict(sc, rdt=None)
+        case = dict(case, sc=sc)
     t = sc["th"]["t"]
     lab = gen.scene_label(sc)
     labels = [lab, case["mode"]]
@@ -155,6 +159,132 @@ def run(case):
     return Outcome(None, nontrivial, labels, metrics=met)
 
 
+# ------------------------------------------------------------------------------------------ theory left to the library
+def strat_auto(tier):
+    mem = st.fixed_dictionaries({"x": gen.size_param(0.3, 2.0), "m": gen.rel_index(False, 1.1, 1.8),
+                                 "dir": st.tuples(st.floats(0.5, math.pi - 0.5), st.floats(0, 2 * math.pi)).map(list),
+                                 # centre distance from the previous member in units of the sum of radii: touching ... far
+                                 # beyond the 30-radius rule
+                                 "dist": st.one_of(st.floats(1.02, 1.6), gen.logu(1.02, 40.0))})
+    u = st.one_of(st.floats(-6.0, 6.0), st.integers(-20, 20).map(lambda i: i * math.log10(2.0)), st.sampled_from([-6.0, 6.0, -3.0, 3.0, 4.0]))
+    return st.fixed_dictionaries({"o": gen.optics(True), "mem": st.lists(mem, min_size=2, max_size=3), "u": u,
+                                  "pl": st.fixed_dictionaries({"fx": gen.rounded(0, 1, 3), "fy": gen.rounded(0, 1, 3), "kgap": st.floats(80.0, 200.0)}),
+                                  "det": gen.point_detector(4)})
+
+
+def run_auto(case):
+    from holopy.scattering import calc_holo, calc_field
+    from holopy.scattering.interface import determine_default_theory_for
+    o = case["o"]
+    f = 10.0 ** case["u"]
+    sc = {"kind": "cluster", "mem": case["mem"], "pl": case["pl"], "th": {"t": "auto"}}
+    res = []
+    for oo in (o, dict(o, wl=o["wl"] * f)):
+        unit = oo["wl"] / oo["nm"]
+        d = gen.build_detector(case["det"], unit)
+        s, th, info = gen.build_scene(sc, oo, case["det"])
+        kw = gen.optics_kwargs(oo)
+        chosen = type(determine_default_theory_for(s)).__name__
+        try:
+            h = gen.flatten(calc_holo(d, s, scaling=0.8, **kw), gen.detector_points_xyz(case["det"], unit))[1]
+            e = gen.flatten(calc_field(d, s, **kw), gen.detector_points_xyz(case["det"], unit))[1]
+        except Exception as ex:
+            if type(ex).__name__ == "MultisphereFailure":
+                return Outcome(None, False, ["MultisphereFailure"], skipped=True)
+            raise
+        cs = np.array(info["centers"], dtype=float); rs = np.array(info["radii"], dtype=float)
+        sep = max(np.linalg.norm(a - b_) for a in cs for b_ in cs) / rs.max()
+        res.append((chosen, np.asarray(h), np.asarray(e), sep))
+    (c1, h1, e1, sep), (c2, h2, e2, _) = res
+    labels = ["k%d" % len(case["mem"]), c1, "decades_%d" % int(abs(case["u"])), "within_30_radii" if sep <= 30 else "beyond_30_radii"]
+    if abs(sep - 30.0) < 1e-9:
+        return Outcome(None, False, labels + ["on_the_boundary"], skipped=True)
+    if c1 != c2:
+        return Outcome(failure("auto_theory_depends_on_unit", "largest separation %.4g radii: the theory chosen for the cluster is %s, and %s when all lengths "
+                               "are multiplied by 10^%.3f" % (sep, c1, c2, case["u"])), True, labels)
+    floor = 1e-8 if c1 == "Mie" else 3e-3
+    err = max(np.abs(h2 - h1).max() / max(np.abs(h1).max(), 1.0), np.abs(e2 - e1).max() / max(np.abs(e1).max(), 1e-300))
+    if not (err <= floor * TOLX):
+        return Outcome(failure("unit_dependence", "hologram/field of an auto-theory cluster (%s) changes by %.3g when all lengths are multiplied by 10^%.3f"
+                               % (c1, err, case["u"]), theory="auto", quantity="holo"), True, labels)
+    return Outcome(None, abs(case["u"]) >= 1, labels, metrics={"auto_%s" % c1: err})
+
+
+# ------------------------------------------------------------------------------------------ micrometre floats vs nanometre integers
+def strat_intnm(tier):
+    mm = st.integers(1, 999)
+    return st.fixed_dictionaries({
+        "wl": st.sampled_from([405, 532, 660, 785]), "nm": st.sampled_from([1.0, 1.33, 1.5]), "pol": gen.polarization(False),
+        "kind": st.just("sphere"),
+        "r": st.integers(100, 2000), "r2": st.integers(150, 1500), "m": gen.rounded(1.05, 1.8, 3),
+        "c": st.tuples(st.integers(-2000, 6000), st.integers(-2000, 6000), st.integers(5000, 30000)).map(list),
+        "shape": st.tuples(st.integers(1, 5), st.integers(1, 5)).map(list), "spacing": st.sampled_from([50, 100, 100, 137, 250]),
+        "origin": st.tuples(st.integers(-3000, 3000), st.integers(-3000, 3000)).map(list), "z": st.sampled_from([0, 0, 500, -1500]),
+        "det": st.sampled_from(["grid", "points"]), "rot": st.tuples(st.floats(0, 3.0), st.floats(0.2, 2.9), st.floats(0, 3.0)).map(list),
+    })
+
+
+def run_intnm(case):
+    """every length an exact number of nanometres: written as micrometre floats, and as nanometre integers (int spacing gives
+    integer-typed detector coordinates, integer tuples as centres, integer radii and wavelength)."""
+    import holopy as hp
+    from holopy.scattering import Sphere, Spheroid, Cylinder, Mie, Tmatrix, calc_holo, calc_field, calc_intensity, calc_scat_matrix, calc_cross_sections
+    nx, ny = case["shape"]
+    labels = [case["kind"], case["det"]]
+    out = []
+    for unit in ("um", "nm"):
+        f = 1e-3 if unit == "um" else 1
+        xs = [(case["origin"][0] + i * case["spacing"]) * f for i in range(nx)]
+        ys = [(case["origin"][1] + j * case["spacing"]) * f for j in range(ny)]
+        z = case["z"] * f
+        if unit == "nm":
+            xa, ya = np.array(xs, dtype=np.int64), np.array(ys, dtype=np.int64)
+        else:
+            xa, ya = np.array(xs, dtype=float), np.array(ys, dtype=float)
+        if case["det"] == "grid":
+            d = hp.detector_grid((nx, ny), case["spacing"] * f).assign_coords(x=xa, y=ya, z=[z])
+        else:
+            X, Y = np.meshgrid(xa, ya, indexing="ij")
+            d = hp.detector_points(x=X.ravel(), y=Y.ravel(), z=z)
+        c = tuple(v * f for v in case["c"])
+        n = case["m"] * case["nm"]
+        if case["kind"] == "sphere":
+            s, th = Sphere(n=n, r=case["r"] * f, center=c), Mie()
+        else:
+            # tilted spheroids and cylinders respond to one ulp of the size by up to 1e-3 (see the noise model of the first
+            # sub-check); the T-matrix path is exercised with the sphere, which is stable
+            s, th = Sphere(n=n, r=min(case["r"], 800) * f, center=c), Tmatrix()
+        pol = tuple(case["pol"]) if case["kind"] == "sphere" else (1, 0)
+        kw = dict(medium_index=case["nm"], illum_wavelen=case["wl"] * f, illum_polarization=pol)
+        res = {}
+        try:
+            res["holo"] = np.asarray(calc_holo(d, s, theory=th, scaling=0.8, **kw).values, dtype=float).ravel()
+            res["field"] = np.asarray(calc_field(d, s, theory=th, **kw).values).ravel()
+            res["intensity"] = np.asarray(calc_intensity(d, s, theory=th, **kw).values, dtype=float).ravel()
+            res["scat_matrix"] = np.asarray(calc_scat_matrix(d, s, case["nm"], case["wl"] * f, theory=th).values).ravel()
+            if case["kind"] == "sphere":
+                res["cross_sections"] = np.asarray(calc_cross_sections(s, theory=th, **kw).values, dtype=float)
+        except Exception as e:
+            if type(e).__name__ in ("TmatrixFailure", "InvalidScatterer"):
+                return Outcome(None, False, labels + [type(e).__name__], skipped=True)
+            raise
+        out.append(res)
+    a, b_ = out
+    floor = 1e-7 if case["kind"] == "sphere" else 2e-5
+    for key in a:
+        va, vb = a[key], b_[key]
+        if key == "cross_sections":
+            vb = vb / np.array([1e6, 1e6, 1e6, 1.0])
+            err = max(np.max(np.abs(vb[:3] - va[:3])) / abs(va[2]), abs(vb[3] - va[3]))
+        else:
+            err = np.abs(vb - va).max() / max(np.abs(va).max(), 1.0 if key == "holo" else 1e-300)
+        if not (err <= floor * TOLX):
+            return Outcome(failure("unit_dependence", "%s of a %s differs by %.3g (rel) between micrometre floats and the same lengths as nanometre integers "
+                                   "(integer-typed detector coordinates, centre, size and wavelength)" % (key, case["kind"], err), theory=type(th).__name__, quantity=key,
+                                   integer_nanometres=True), True, labels)
+    return Outcome(None, True, labels)
+
+
 SUBCHECKS = [
     Sub("scale_and_index_reduction", strat, run, 3000, 50000,
         "all scene kinds/theories (Mie, layered, Mie superposition, Multisphere, Tmatrix spheroid/cylinder, MieLens, "
@@ -162,4 +292,16 @@ SUBCHECKS = [
         "(n,n_m,L)->(n/n_m,1,L/n_m); compares field, hologram, intensity, scattering matrix, cross sections (x factor^2); "
         "non-trivial = |u|>=1 (or n_m != 1) and the hologram deviates from 1 by >1e-3",
         tolerances=dict(TOL, ms_floor_by_options={k: v[1] for k, v in MS_OPTS.items()}, iterative_solvers="max(floor, 30 x response to +-1,3 ulp of the wavelength)")),
+    Sub("auto_theory_units", strat_auto, run_auto, 1500, 20000,
+        "2-3 sphere clusters with the theory left to the library, member separations from touching to far beyond the 30-radius "
+        "rule, every length multiplied by 10^u (u in [-6, 6], exact powers of two, nm<->um<->m): the theory chosen by "
+        "determine_default_theory_for must not depend on the unit, holograms and fields agree (Mie superposition 1e-8, "
+        "Multisphere at its default stopping rule 3e-3); non-trivial = at least one decade",
+        tolerances={"mie_rel": 1e-8, "multisphere_default_rel": 3e-3}, budget_quick=40),
+    Sub("micrometre_floats_vs_nanometre_integers", strat_intnm, run_intnm, 1500, 20000,
+        "sphere (Mie; the T-matrix code responds to one ulp of the size by up to 2e-3 and is left to the first sub-check's noise model) with every length an exact number of nanometres, once as micrometre "
+        "floats and once as nanometre integers (int64 detector coordinates from an integer spacing, integer centre, radius and "
+        "wavelength), grid or point detector, also off z=0: holograms, fields, intensities, scattering matrices equal "
+        "(Mie 1e-7: positions such as 0.137 um are not exactly representable; T-matrix 2e-5), cross sections scale by 1e6",
+        tolerances={"mie_rel": 1e-7, "tmatrix_rel": 2e-5}, budget_quick=40),
 ]
